@@ -314,7 +314,9 @@ func RunMany(c *hx.Ctx, prop string, n, par int, c10 bool) {
 			defer wg.Done()
 			for j := range jobs {
 				var res dsx.Result
-				for try := 0; try < 3; try++ {
+				// c10t9: up to six runs of a history whose timing grid was disturbed (was three: at load average 30-36 on 16 cores
+				// a single run of C03's timer-heavy histories is disturbed with probability 0.4-0.45, i.e. 6-9 % were dropped)
+				for try := 0; try < 6; try++ {
 					if strings.HasPrefix(j.kind, "script:") {
 						res = dsx.Run(j.cfg, scriptChooser(j.script), j.labels)
 					} else if j.kind == "partial" {
